@@ -29,7 +29,11 @@ type IncSolver struct {
 }
 
 func NewIncSolver() *IncSolver {
-	c := exec.Command("z3", "-in", "-t:2000")
+	bin := os.Getenv("GOVC_INC")
+	if bin == "" {
+		bin = "z3-new"
+	}
+	c := exec.Command(bin, "-in", "-t:2000")
 	in, _ := c.StdinPipe()
 	out, _ := c.StdoutPipe()
 	c.Stderr = io.Discard
@@ -62,7 +66,13 @@ func (s *IncSolver) Feasible(asserts []*Term) bool {
 	}
 	s.N++
 	t0 := time.Now()
-	defer func() { s.Time += time.Since(t0) }()
+	defer func() {
+		d := time.Since(t0)
+		s.Time += d
+		if os.Getenv("GOVC_TRACE") != "" && d > 20*time.Millisecond {
+			fmt.Fprintf(os.Stderr, "inc query %v: %d asserts, %d nodes\n", d.Round(time.Millisecond), len(asserts), termSize(asserts))
+		}
+	}()
 	var b bytes.Buffer
 	b.WriteString(Script(asserts, s.known, true))
 	b.WriteString("(check-sat)\n(pop 1)\n")
@@ -87,6 +97,70 @@ func (s *IncSolver) Feasible(asserts []*Term) bool {
 			// keep reading: a check-sat answer still follows
 		}
 	}
+}
+
+// ModelInt returns the value of an Int term in some model of asserts (ok=false if none is found).
+func (s *IncSolver) ModelInt(asserts []*Term, t *Term) (int64, bool) {
+	if s.broken {
+		return 0, false
+	}
+	s.N++
+	t0 := time.Now()
+	defer func() { s.Time += time.Since(t0) }()
+	var b bytes.Buffer
+	b.WriteString(Script(append(append([]*Term(nil), asserts...), Eq(t, t)), s.known, true))
+	b.WriteString("(check-sat)\n")
+	if _, err := s.in.Write(b.Bytes()); err != nil {
+		s.broken = true
+		return 0, false
+	}
+	line, err := s.out.ReadString('\n')
+	if err != nil {
+		s.broken = true
+		return 0, false
+	}
+	if strings.TrimSpace(line) != "sat" {
+		fmt.Fprintln(s.in, "(pop 1)")
+		return 0, false
+	}
+	// shared sub-terms are define-funs of this scope, so the term can be printed by name-free text
+	fmt.Fprintf(s.in, "(get-value (%s))\n(pop 1)\n", t.String())
+	var acc strings.Builder
+	depth := 0
+	for {
+		line, err := s.out.ReadString('\n')
+		if err != nil {
+			s.broken = true
+			return 0, false
+		}
+		acc.WriteString(line)
+		depth += strings.Count(line, "(") - strings.Count(line, ")")
+		if depth <= 0 {
+			break
+		}
+	}
+	out := acc.String()
+	if strings.Contains(out, "error") {
+		return 0, false
+	}
+	// value is the last atom or (- n)
+	out = strings.TrimSpace(out)
+	out = strings.TrimSuffix(strings.TrimSuffix(out, ")"), ")")
+	if i := strings.LastIndex(out, "(- "); i >= 0 {
+		n, ok := smtValueToBig(out[i:] + ")")
+		if ok {
+			return n.Int64(), true
+		}
+	}
+	f := strings.Fields(out)
+	if len(f) == 0 {
+		return 0, false
+	}
+	n, ok := smtValueToBig(f[len(f)-1])
+	if !ok {
+		return 0, false
+	}
+	return n.Int64(), true
 }
 
 // Valid reports whether goal follows from asserts according to the incremental solver (unknown = false).
